@@ -14,6 +14,8 @@
 (***************************************************************************)
 EXTENDS QCTree
 
+CONSTANT NVoters
+
 VARIABLES lp,        \* localProposal: ids of proposals seen as p2p messages (and the initial root)
           ledger,    \* ledgerState
           lastVote,  \* DefaultSaftyRules.lastVoteRound
@@ -21,12 +23,16 @@ VARIABLES lp,        \* localProposal: ids of proposals seen as p2p messages (an
           votes      \* qcVoteMsgs: proposal -> set of members whose signature is stored
 svars == <<vars, lp, ledger, lastVote, pref, votes>>
 
-Voters == 2..4
+Voters == 2..(1 + NVoters)      \* members whose votes arrive (the certificates of messages are always signed by 2..4)
+JustifySigners == IF NVoters >= 3 THEN 2..4 ELSE Voters   \* (model checking with 2 voters: their two signatures)
 Mx(a, b) == IF a > b THEN a ELSE b
 (* CalVotesThreshold(len, 4) *)
 Full(len) == len + 1 >= 4 - 1
 RootParentView == IF root = 0 THEN 0 ELSE View(root) - 1
 
+SInitWith(f) == InitWith(f) /\ lp = {0} /\ ledger = 0 /\ lastVote = 0 /\ pref = 0 /\ votes = [p \in DOMAIN f |-> {}]
+(* model checking at this level: the chain and one fork (every tree shape is covered at the tree level) *)
+SInitMC == \E f \in {[i \in 1..NP |-> i - 1], [i \in 1..NP |-> IF i = NP THEN 1 ELSE i - 1]} : SInitWith(f)
 SInit == Init /\ lp = {0} /\ ledger = 0 /\ lastVote = 0 /\ pref = 0 /\ votes = [p \in Props |-> {}]
 SResetTo(f) == /\ ResetTo(f) /\ lp' = {0} /\ ledger' = 0 /\ lastVote' = 0 /\ pref' = 0
                /\ votes' = [p \in DOMAIN f |-> {}]
@@ -87,7 +93,7 @@ Vote(p, m) ==
 (* Smr.UpdateJustifyQcStatus(certificate of p signed by members 2..4) *)
 Justify(p) ==
   /\ p \in Props
-  /\ votes' = [votes EXCEPT ![p] = @ \cup Voters]
+  /\ votes' = [votes EXCEPT ![p] = @ \cup JustifySigners]
   /\ Apply(CertifyF(St, p, KF_StaleMarkers))
   /\ enf' = FALSE /\ UNCHANGED <<par, pview, lp, ledger, lastVote, pref, accepted>>
   /\ Log([op |-> "justify", p |-> p, res |-> "ok"])
@@ -107,6 +113,7 @@ SNext ==
      \/ \E p \in Props : Justify(p)
      \/ \E p \in Ids : Rollback(p)
 SSpec == SInit /\ [][SNext]_svars
+SSpecMC == SInitMC /\ [][SNext]_svars
 
 (* observable projection: the tree's, plus what the Smr exposes *)
 SObs == [ t |-> Obs,
